@@ -9,7 +9,8 @@ from engine.dataflow import ReachingDefs, backward_slice_exprs
 from engine.index import AnalysisError, ClassInfo, FuncInfo, calls_in, const_str, is_self_attr, kwarg, unparse, walk_no_nested
 from rules import coef
 from rules.c02 import _attrs_read, _fitted_reach
-from rules.common import BILLING_MODEL, CALTRACK_WRAPPER, DAILY_MODEL, HOURLY_MODEL, WEIGHTED_MODEL, method
+from engine.pattern import PatCtx
+from rules.common import attr_stores_chain, attr_stores, flows_from, returned_names, BILLING_MODEL, CALTRACK_WRAPPER, DAILY_MODEL, HOURLY_MODEL, WEIGHTED_MODEL, method
 
 HS = "opendsm.eemeter.models.hourly.settings"
 CM = "opendsm.eemeter.models.hourly_caltrack.model"
@@ -88,7 +89,12 @@ def run(chk):
     fields = {n for n, (ann, v, st) in sm_cls.attrs.items() if ann is not None and n != "model_config"}
     for k in W:
         r1.require(k in fields, f"{td.key}|writes:{k}|declared", td.where(ser[0]), f"to_dict passes `{k}` to SerializeModel, which declares no such field")
-    R = _keys_read(fd.node, "data")
+    DOC = [p_ for p_ in fd.params if p_ not in ("cls", "self")][0]  # the document parameter of from_dict
+    objs = returned_names(fd)
+    if len(objs) != 1:
+        raise AnalysisError(f"{fd.key}: expected from_dict to build and return one model object; returns {objs}")
+    OBJ = objs[0]
+    R = _keys_read(fd.node, DOC)
     rd_r = ReachingDefs(fd.node)
     # reader target attributes per key: statements whose value (transitively) uses data.get(k)
     def reader_targets(key: str) -> Set[str]:
@@ -107,14 +113,14 @@ def run(chk):
                     continue
                 for t in (s.targets if isinstance(s, ast.Assign) else [s.target]):
                     for x in ast.walk(t):
-                        if isinstance(x, ast.Name) and isinstance(x.ctx, ast.Store) and x.id not in tainted and x.id != "model_cls":
+                        if isinstance(x, ast.Name) and isinstance(x.ctx, ast.Store) and x.id not in tainted and x.id != OBJ:
                             tainted.add(x.id)
                             changed = True
                     if isinstance(t, ast.Attribute):
                         ch = t
                         while isinstance(ch.value, ast.Attribute):
                             ch = ch.value
-                        if isinstance(ch.value, ast.Name) and ch.value.id == "model_cls" and ch.attr not in out:
+                        if isinstance(ch.value, ast.Name) and ch.value.id == OBJ and ch.attr not in out:
                             out.add(ch.attr)
                             changed = True
         # constructor: cls(settings=<tainted>)
@@ -147,23 +153,27 @@ def run(chk):
             for kw in c.keywords:
                 info_w[kw.arg] = _self_attrs_in(kw.value)
     info_r = {}
+    hp = PatCtx(fd.node)
     for s in walk_no_nested(fd.node):
-        if isinstance(s, ast.Assign) and isinstance(s.targets[0], ast.Attribute) and isinstance(s.value, ast.Attribute) and unparse(s.value.value) == "info":
-            info_r[s.value.attr] = s.targets[0].attr
+        if isinstance(s, ast.Assign) and isinstance(s.targets[0], ast.Attribute) and unparse(s.targets[0].value) == OBJ:
+            m_ = hp.find(f"{OBJ}.{s.targets[0].attr} = _INFO_._FIELD_")
+            # <obj>.<attr> = <info record>.<field>, where the record is built from the document's `info` entry
+            if isinstance(s.value, ast.Attribute) and flows_from(fd, s, s.value.value, R.get("info", []), rd_r):
+                info_r[s.value.attr] = s.targets[0].attr
     mi = chk.repo.cls(HS, "ModelInfo")
     for f in sorted(set(info_w) | set(info_r) | {n for n, (a, v, s) in mi.attrs.items() if a is not None}):
         ok = f in info_w and f in info_r and info_r[f] in info_w[f]
         r1.require(ok, f"{hm.key}|info.{f}", fd.where(), f"info.{f}: written from {sorted(info_w.get(f, []))}, read back into {info_r.get(f)}", sample={"family": "hourly", "key": f"info.{f}"})
     # encodings: int-key restoration, np.array <-> tolist
     txt_fd = unparse(fd.node)
-    r1.require("int(k): v for k, v in data.get('temperature_edge_bin_coefficients').items()" in txt_fd, f"{fd.key}|int-keys:temperature_edge_bin_coefficients", fd.where(),
+    r1.require(hp.has(f"{{int(_K_): _V_ for _K_, _V_ in {DOC}.get('temperature_edge_bin_coefficients').items()}}", bind=False), f"{fd.key}|int-keys:temperature_edge_bin_coefficients", fd.where(),
                "temperature_edge_bin_coefficients is keyed by bin number (int); from_dict must restore int keys")
     for key, attr in (("coefficients", "coef_"), ("intercept", "intercept_")):
-        r1.require(f"model_cls._model.{attr} = np.array(data.get('{key}'))" in txt_fd, f"{fd.key}|ndarray:{key}", fd.where(), f"{key} must be restored as an ndarray into _model.{attr}")
+        r1.require(hp.has(f"{OBJ}._model.{attr} = np.array({DOC}.get('{key}'))", bind=False), f"{fd.key}|ndarray:{key}", fd.where(), f"{key} must be restored as an ndarray into _model.{attr}")
     # scaler branch symmetry: the same attribute names per scaling method in writer and reader
     for meth, loc in (("STANDARDSCALER", "mean_"), ("ROBUSTSCALER", "center_")):
         w_ok = f"self._feature_scaler.{loc}" in unparse(td.node) and f"self._y_scaler.{loc}" in unparse(td.node)
-        r_ok = f"model_cls._feature_scaler.{loc}" in txt_fd and f"model_cls._y_scaler.{loc}" in txt_fd
+        r_ok = bool(attr_stores_chain(fd, OBJ, ("_feature_scaler", loc))) and bool(attr_stores_chain(fd, OBJ, ("_y_scaler", loc)))
         r1.require(w_ok and r_ok, f"{hm.key}|scaler:{meth}", fd.where(), f"{meth}: writer and reader must both use `.{loc}` / `.scale_` of the feature and y scalers")
 
     # ---- R01.2 hourly state coverage
@@ -181,7 +191,7 @@ def run(chk):
                 ch = t
                 while isinstance(ch, ast.Attribute) and isinstance(ch.value, ast.Attribute):
                     ch = ch.value
-                if isinstance(ch, ast.Attribute) and isinstance(ch.value, ast.Name) and ch.value.id == "model_cls":
+                if isinstance(ch, ast.Attribute) and isinstance(ch.value, ast.Name) and ch.value.id == OBJ:
                     assigned.add(ch.attr)
     class_level = set()
     for k in chk.res.mro(hm):
@@ -202,7 +212,7 @@ def run(chk):
         r2.require(restored or rebuilt, f"{hm.key}|state:{a}", fd.where(), f"predict() reads self.{a}, which neither __init__ nor from_dict assigns: a reloaded model cannot predict (or predicts with unfitted state)",
                    sample={"family": "hourly", "attribute": a, "restored_by": "from_dict/__init__" if restored else "rebuilt per call"})
     for a in ("_df_temporal_clusters", "_T_bin_edges", "_T_edge_bin_coeffs", "_ts_features", "_categorical_features"):
-        in_fd = any(isinstance(s, ast.Assign) and any(unparse(t) == f"model_cls.{a}" for t in s.targets) for s in walk_no_nested(fd.node))
+        in_fd = any(isinstance(s, ast.Assign) and any(unparse(t) == f"{OBJ}.{a}" for t in s.targets) for s in walk_no_nested(fd.node))
         r2.require(in_fd, f"{fd.key}|restores:{a}", fd.where(), f"from_dict must restore fit-time state `{a}` from the document")
 
     # ---- R01.3 hourly
@@ -211,7 +221,7 @@ def run(chk):
     if bm_field and bm_field[0] is not None:
         ann = unparse(bm_field[0]).replace("Optional[", "").rstrip("]")
         want_cls = ann
-    stored = [unparse(s.value.func) for s in walk_no_nested(fd.node) if isinstance(s, ast.Assign) and any(unparse(t) == "model_cls.baseline_metrics" for t in s.targets) and isinstance(s.value, ast.Call)]
+    stored = [unparse(s.value.func) for s in walk_no_nested(fd.node) if isinstance(s, ast.Assign) and any(unparse(t) == f"{OBJ}.baseline_metrics" for t in s.targets) and isinstance(s.value, ast.Call)]
     ok = bool(stored) and all(x == want_cls or x.endswith("." + str(want_cls)) for x in stored)
     r3.require(ok, f"{hm.key}|baseline_metrics-class", fd.where(),
                f"to_dict feeds self.baseline_metrics to SerializeModel.baseline_metrics: Optional[{want_cls}], but from_dict stores the result of {stored}: "
@@ -226,7 +236,12 @@ def run(chk):
     top_fields = {n for n, (a, v, s) in dmp.attrs.items() if a is not None}
     ctor = [c for c in calls_in(cp.node) if unparse(c.func) == "DailyModelParameters"]
     wk = {k.arg: k.value for k in ctor[0].keywords} if ctor else {}
-    rk = _keys_read(dfd.node, "data")
+    DDOC = [p_ for p_ in dfd.params if p_ not in ("cls", "self")][0]
+    dobjs = returned_names(dfd)
+    if len(dobjs) != 1:
+        raise AnalysisError(f"{dfd.key}: expected from_dict to build and return one model object; returns {dobjs}")
+    DOBJ = dobjs[0]
+    rk = _keys_read(dfd.node, DDOC)
     for k in sorted(top_fields | set(wk) | set(rk)):
         r1.require(k in top_fields and k in wk and k in rk, f"{dm.key}|key:{k}", dfd.where(), f"daily key `{k}`: declared={k in top_fields} written={k in wk} read={k in rk}", sample={"family": "daily", "key": k})
     info_lit = wk.get("info")
@@ -234,7 +249,7 @@ def run(chk):
     ir = _keys_read(dfd.node, "info")
     for k, attr in (("disqualification", "disqualification"), ("warnings", "warnings"), ("baseline_timezone", "baseline_timezone")):
         w_ok = k in iw and f"self.{attr}" in unparse(iw[k])
-        r_ok = k in ir and any(isinstance(s, ast.Assign) and unparse(s.targets[0]) == f"daily_model.{attr}" and any(n in ir[k] for n in ast.walk(s.value)) for s in walk_no_nested(dfd.node))
+        r_ok = k in ir and any(flows_from(dfd, st, v, ir[k]) for st, recv, v in attr_stores(dfd, attr, self_ok=False))
         r1.require(w_ok and r_ok, f"{dm.key}|info.{k}", dfd.where(), f"daily info.{k} must be written from self.{attr} and read back into the model's {attr}", sample={"family": "daily", "key": f"info.{k}"})
     for k in ir:
         r1.require(k in iw, f"{dfd.key}|reads:info.{k}|written", dfd.where(), f"from_dict reads info.{k}, which is never written")
@@ -261,7 +276,7 @@ def run(chk):
     for s in walk_no_nested(dfd.node):
         if isinstance(s, ast.Assign):
             for t in s.targets:
-                if isinstance(t, ast.Attribute) and isinstance(t.value, ast.Name) and t.value.id == "daily_model":
+                if isinstance(t, ast.Attribute) and isinstance(t.value, ast.Name) and t.value.id == DOBJ:
                     dassigned.add(t.attr)
     dclass = set()
     for k in chk.res.mro(dm):
@@ -383,7 +398,7 @@ def run(chk):
                              "submodel.temperature_constraints['T_max']": "TMAX", "submodel.temperature_constraints['T_min_seg']": "TMINSEG",
                              "submodel.temperature_constraints['T_max_seg']": "TMAXSEG", "submodel.f_unc": "FUNC", "T.astype(np.float64)": "T"})
     diff = [(x, y) for x, y in zip(a, b) if x != y] + ([("<length>", f"{len(a)} vs {len(b)}")] if len(a) != len(b) else [])
-    r6.require(not diff and len(a) >= 10, f"{ps.key}~{ev.key}", ps.where(),
+    r6.require(not diff and len(a) >= 6, f"{ps.key}~{ev.key}", ps.where(),
                f"the stored-model evaluator and the fitted-component evaluator differ: {diff[:2]}", sample={"statements_compared": len(a)})
     # ---- R01.7
     coef.check_conventions(chk, r7)
@@ -422,8 +437,11 @@ def _attrs_read_when_called_from(chk, f: FuncInfo, P: Dict[str, FuncInfo]) -> Se
 
 
 def _normalise_eval(f: FuncInfo, subst: Dict[str, str]) -> List[str]:
-    """Statements from the get_full_model_x call to the return, with sources replaced by placeholders and locals that
-    merely name a source inlined."""
+    """Statements from the get_full_model_x call to the return, in a form that does not depend on how many locals the author
+    used: every single-definition local is expanded into its uses (and its defining statement dropped), then the sources are
+    replaced by placeholders."""
+    import copy
+    from engine.pattern import Expander
     body = f.node.body
     start = None
     for i, s in enumerate(body):
@@ -431,10 +449,11 @@ def _normalise_eval(f: FuncInfo, subst: Dict[str, str]) -> List[str]:
             start = i
     if start is None:
         raise AnalysisError(f"{f.key}: get_full_model_x call not found")
-    local = {}
-    for s in body[:start]:
-        if isinstance(s, ast.Assign) and isinstance(s.targets[0], ast.Name) and unparse(s.value) in subst:
-            local[s.targets[0].id] = subst[unparse(s.value)]
+    ex = Expander(f.node)
+    ndefs: Dict[str, int] = {}
+    for x in ast.walk(f.node):
+        if isinstance(x, ast.Name) and isinstance(x.ctx, ast.Store):
+            ndefs[x.id] = ndefs.get(x.id, 0) + 1
 
     class Sub(ast.NodeTransformer):
         def generic_visit(self, node):
@@ -442,13 +461,26 @@ def _normalise_eval(f: FuncInfo, subst: Dict[str, str]) -> List[str]:
                 t = unparse(node)
                 if t in subst:
                     return ast.Name(id=subst[t], ctx=ast.Load())
-                if isinstance(node, ast.Name) and node.id in local:
-                    return ast.Name(id=local[node.id], ctx=ast.Load())
             return super().generic_visit(node)
     out = []
-    import copy
     for s in body[start:]:
-        s2 = Sub().visit(copy.deepcopy(s))
+        if isinstance(s, ast.Assign) and len(s.targets) == 1 and isinstance(s.targets[0], ast.Name) and ndefs.get(s.targets[0].id) == 1:
+            continue  # a naming step: expanded into its uses below
+        s2 = copy.deepcopy(s)
+        for field, val in ast.iter_fields(s2):
+            if isinstance(val, ast.expr) and not (field in ("targets", "target")):
+                setattr(s2, field, ex.expand(getattr(s, field), s))
+        if isinstance(s, (ast.If, ast.For, ast.While, ast.With, ast.Try)):
+            # compound statement: expand every Load name inside, evaluated at the inner statement it belongs to
+            s2 = copy.deepcopy(s)
+            inner = list(ast.walk(s))
+            inner2 = list(ast.walk(s2))
+            for o, c in zip(inner, inner2):
+                if isinstance(o, ast.stmt):
+                    for field, val in ast.iter_fields(o):
+                        if isinstance(val, ast.expr) and field not in ("targets", "target"):
+                            setattr(c, field, ex.expand(val, o))
+        s2 = Sub().visit(s2)
         ast.fix_missing_locations(s2)
         out.append(unparse(s2))
     return out
